@@ -792,8 +792,20 @@ fn parse_inner_type(tokens: &mut Tokens) -> Result<ValueType, Error>
 			}
 			Some(Token::NakedDecimal(x)) =>
 			{
-				let length = *x as usize;
+				let length = usize::try_from(*x);
 				tokens.pop_front();
+				let length = match length
+				{
+					Ok(length) => length,
+					Err(_) =>
+					{
+						return Err(Error::Lexical {
+							error: crate::alpha::lexer::Error::InvalidIntegerLength,
+							expectation: "Expected size literal.".to_string(),
+							location: tokens.last_location.clone(),
+						});
+					}
+				};
 				consume(Token::BracketRight, tokens)?;
 				let element_type = parse_inner_type(tokens)?;
 				Ok(ValueType::Array {
